@@ -1,0 +1,82 @@
+//! Verification hooks. Compiled only with `--cfg hbs_lms_verif`; the shipped crate does not
+//! contain this module. Thin accessors around the existing counter arithmetic, so that key
+//! shapes whose trees are unaffordable to generate (H15..H25, many levels) can still be driven
+//! through `CompressedUsedLeafsIndexes::to`, `ReferenceImplPrivateKey::increment` and
+//! `HssPrivateKey::get_lifetime`.
+
+use tinyvec::ArrayVec;
+
+use crate::{
+    constants::{LmsTreeIdentifier, HSS_COMPRESSED_USED_LEAFS_SIZE, MAX_ALLOWED_HSS_LEVELS},
+    hss::{
+        definitions::HssPrivateKey,
+        reference_impl_private_key::{
+            CompressedParameterSet, CompressedUsedLeafsIndexes, ReferenceImplPrivateKey,
+        },
+    },
+    lms::definitions::LmsPrivateKey,
+    HssParameter, LmotsAlgorithm, LmsAlgorithm, Seed, Sha256_256,
+};
+
+type H = Sha256_256;
+
+fn parameters(heights: &[u8]) -> ArrayVec<[HssParameter<H>; MAX_ALLOWED_HSS_LEVELS]> {
+    let mut result = ArrayVec::new();
+    for height in heights {
+        let lms = match *height {
+            2 => LmsAlgorithm::LmsH2,
+            5 => LmsAlgorithm::LmsH5,
+            10 => LmsAlgorithm::LmsH10,
+            15 => LmsAlgorithm::LmsH15,
+            20 => LmsAlgorithm::LmsH20,
+            25 => LmsAlgorithm::LmsH25,
+            _ => LmsAlgorithm::LmsReserved,
+        };
+        result.push(HssParameter::new(LmotsAlgorithm::LmotsW1, lms));
+    }
+    result
+}
+
+fn skeleton_key(heights: &[u8], counter: u64) -> HssPrivateKey<H> {
+    let parameters = parameters(heights);
+    let leafs = CompressedUsedLeafsIndexes::new(counter).to(&parameters);
+    let mut key = HssPrivateKey::<H>::default();
+    for (i, parameter) in parameters.iter().enumerate() {
+        key.private_key.push(LmsPrivateKey::new(
+            Seed::default(),
+            LmsTreeIdentifier::default(),
+            leafs[i],
+            *parameter.get_lmots_parameter(),
+            *parameter.get_lms_parameter(),
+        ));
+    }
+    key
+}
+
+/// Leaf index used on each level for `counter` (entries beyond `heights.len()` are zero).
+pub fn leaves_for_counter(heights: &[u8], counter: u64) -> [u32; MAX_ALLOWED_HSS_LEVELS] {
+    CompressedUsedLeafsIndexes::new(counter).to(&parameters(heights))
+}
+
+/// Counter of the successor key, or `None` if the successor is the wiped key.
+pub fn increment_counter(heights: &[u8], counter: u64) -> Option<u64> {
+    let parameters = parameters(heights);
+    let mut key = ReferenceImplPrivateKey::<H> {
+        compressed_used_leafs_indexes: CompressedUsedLeafsIndexes::new(counter),
+        compressed_parameter: CompressedParameterSet::from(parameters.as_slice()).unwrap(),
+        seed: Seed::default(),
+    };
+    key.increment(&skeleton_key(heights, counter));
+    if key.compressed_parameter == CompressedParameterSet::default() {
+        return None;
+    }
+    let blob = key.to_binary_representation();
+    let mut count = [0u8; HSS_COMPRESSED_USED_LEAFS_SIZE];
+    count.copy_from_slice(&blob[..HSS_COMPRESSED_USED_LEAFS_SIZE]);
+    Some(u64::from_be_bytes(count))
+}
+
+/// Remaining lifetime reported for `counter`.
+pub fn lifetime_for_counter(heights: &[u8], counter: u64) -> u64 {
+    skeleton_key(heights, counter).get_lifetime()
+}
